@@ -22,7 +22,7 @@ SPECIAL_EPOCHS = [
 ]
 BASE_HOST = {"epoch_ns": 1_700_000_000 * 10**9, "tick_ns": 1_000_000, "jumps": [], "TZ": "UTC", "LANG": "C.UTF-8", "LC_ALL": None,
              "LANGUAGE": None, "LOG_LEVEL": None, "profiler": False, "hashseed": 0, "aslr": False, "random_seed": 0,
-             "user": None, "hostname": None, "columns": None, "umask": None}
+             "user": None, "hostname": None, "columns": None, "umask": None, "sched_seed": 0}
 
 
 def case_seed(master, prop, index):
@@ -74,6 +74,7 @@ def gen_host(rng, swarm=None):
         h["hashseed"] = rng.choice([0, 1, rng.randint(2, 2**32 - 1), rng.randint(2, 2**32 - 1)])
         h["aslr"] = rng.random() < 0.3
         h["random_seed"] = rng.randint(0, 2**31)
+        h["sched_seed"] = rng.randint(1, 2**31)
     return h
 
 
